@@ -3,6 +3,7 @@ import PB.Model.Iter
 import PB.Spec.KVStore
 import PBProofs.Lemmas.Db
 import PBProofs.Lemmas.DbSim
+import PBProofs.Lemmas.DbDelay
 /-
 C02 — Every database backend behaves like one reference key-to-record store.
 Property theorems only (helper lemmas live in PBProofs/Lemmas/Db.lean and DbSim.lean).
@@ -343,6 +344,24 @@ theorem flush_writes_one (cfg : Cfg) (o : Opts) (hc : o.cache = .delay) (st : IS
     (hw : st.wcache = [r]) :
     (ifFlush cfg o st now).1.store = storePut cfg st.store { r with md := o.apply r.md now } := by
   unfold ifFlush flushOne; simp [hc, hw]
+
+/-- Invariant of every history through an interface with delayed writes (any backend, delete mode, eviction
+    pattern; `ClearCache` excluded — it drops cache entries without the evict handler): a record that still
+    waits in the write set is the record the read cache answers with, so no accepted write is ever unreadable
+    before it reaches the storage. -/
+theorem delayed_pending_always_readable (cfg : Cfg) (o : Opts) (hc : o.cache = .delay) :
+    ∀ (ops : List (Op × Int)) (st : ISt), Pend st → (∀ x ∈ ops, x.1 ≠ .clear) →
+      ∀ n, Pend ((ops.take n).foldl (fun s x => (Db.step cfg o s x.1 x.2).1) st) := by
+  intro ops
+  induction ops with
+  | nil => intro st h _ n; simpa using h
+  | cons x rest ih =>
+    intro st h hcl n
+    cases n with
+    | zero => simpa using h
+    | succ n =>
+      simp only [List.take_succ_cons, List.foldl_cons]
+      exact ih _ (step_pend hc h x.1 x.2 (hcl x (List.mem_cons_self ..))) (fun y hy => hcl y (List.mem_cons_of_mem _ hy)) n
 
 /-! ### Non-vacuity -/
 
